@@ -73,6 +73,9 @@ def opt_result_programs():
     P.append(("option::copied", ["for o in OPTS { let r = o.as_ref(); out.push((format!(\"option::copied on {:?}\", r), obs(|| option::copied(r)), obs(|| r.copied()))); }"]))
     # ---- Result
     over("RESS", "r", "result::unwrap_or!(r, 7)", "result::unwrap_or!(r, 7)", "r.unwrap_or(7)")
+    # eager arguments are evaluated exactly once whatever the variant (std evaluates them before the call)
+    over("RESS", "r", "result::unwrap_or!(r, mk7())", "result::unwrap_or!(r, mk7())", "r.unwrap_or(mk7())")
+    over("OPTS", "o", "option::ok_or!(o, mk_e())", "option::ok_or!(o, mk_e())", "o.ok_or(mk_e())")
     over("RESS", "r", "result::unwrap_or_else!(r, |e| closure)", "result::unwrap_or_else!(r, |e| { cnt(); e.len() as u8 })", "r.unwrap_or_else(|e| { cnt(); e.len() as u8 })")
     over("RESS", "r", "result::unwrap_or_else!(r, path)", "result::unwrap_or_else!(r, len8)", "r.unwrap_or_else(len8)")
     over("RESS", "r", "result::unwrap_err_or_else!(r, |v| closure)", "result::unwrap_err_or_else!(r, |v| { cnt(); if v == 0 { \"zero\" } else { \"nz\" } })", "match r { Ok(v) => { cnt(); if v == 0 { \"zero\" } else { \"nz\" } } Err(e) => e }")
@@ -116,6 +119,8 @@ def opt_result_programs():
     ]
     for name, k, s in mm:
         P.append((name, [f"for a in kvs() {{ for b in kvs() {{ if a.id == b.id {{ continue; }} out.push((format!(\"{name} on {{:?}}, {{:?}}\", a, b), obs(|| {k}), obs(|| {s}))); }} }}"]))
+    # (operand *evaluation order* of min!/max! is deliberately not compared: the statement speaks of pairs of values;
+    #  the pinned max_by_key! evaluates its operands right to left)
     # min!/max! on primitives (u8 all pairs of a small set)
     P.append(("min!/max!(u8)", ["for a in [0u8, 1, 2, 255] { for b in [0u8, 1, 2, 255] { out.push((format!(\"min!({a},{b})\"), obs(|| konst::min!(a, b)), obs(|| a.min(b)))); out.push((format!(\"max!({a},{b})\"), obs(|| konst::max!(a, b)), obs(|| a.max(b)))); } }"]))
     return P
@@ -220,7 +225,7 @@ def run(tier, seed, drv):
             nontriv += 1
         if r["bad"]:
             fb = r["first_bad"]
-            viol.append({"engine": "optres", "func": names[r["id"]].split()[0], "replay": f"prog|{r['id']}", "case": fb["case"], "expected": fb["std"], "observed": fb["konst"], "class": "mismatch", "bad_cases": r["bad"]})
+            viol.append({"engine": "optres", "func": names[r["id"]].split()[0], "replay": f"prog|{r['id']}", "case": (names[r["id"]] + ": " + fb["case"]) if r.get("crash") else fb["case"], "expected": fb["std"], "observed": fb["konst"], "class": "mismatch", "bad_cases": r["bad"]})
     rep["violations"] = viol
     rep["violations_total"] = len(viol)
     rep["overflow_classified"] = True
